@@ -64,7 +64,7 @@ def gen_ops(ctx: Ctx, P, M):
                 shared = sorted(P.reach_leaves(M.features))
                 tasks = [list(tl) for tl in M.task_leaves]
                 agg = rng.choice([("const", rng.sample(range(-5, 8), T)), ("sum",),
-                                  ("probe", [rng.choice([-1, 1, 2]) for _ in range(T)])][:2 if P.big else 3])
+                                  ("probe", [rng.choice([-1, 1, 2]) for _ in range(T)])][:2 if (P.big or P.casts) else 3])
                 op = ("mtl", M.losses, M.features, tasks, shared, agg, rng.choice([None, 1, 2]))
             else:
                 cands = differentiable_nonleaves(P)
@@ -72,7 +72,7 @@ def gen_ops(ctx: Ctx, P, M):
                 m = sum(numel(P.nodes[t].shape) for t in tensors)
                 ins = [i for i in rg if rng.random() < 0.7] or rg[:1]
                 agg = rng.choice([("const", [rng.randint(-5, 7) for _ in range(m)]), ("sum",),
-                                  ("probe", [rng.choice([-1, 1, 2]) for _ in range(m)])][:2 if P.big else 3])
+                                  ("probe", [rng.choice([-1, 1, 2]) for _ in range(m)])][:2 if (P.big or P.casts) else 3])
                 op = ("backward", tensors, ins, agg, rng.choice([None, 1, 2, m + 1]))
             calls.append(op)
             ops.append(op)
